@@ -50,6 +50,16 @@ FIXED = [
                                 ['ref', 'Sheet2!A1']]},
      'sheets': ['Sheet1', 'Sheet2']},
 ]
+FIXED.append(
+    # twin sheets: character-identical formula texts with unqualified
+    # references that mean different cells
+    {'inputs': {'Sheet1!A1': 1, 'Sheet1!A2': 2, 'Sheet2!A1': 100,
+                'Sheet2!A2': 200},
+     'formulas': {'Sheet1!B1': ['op', '+', ['ref', 'A1'], ['num', '1']],
+                  'Sheet2!B1': ['op', '+', ['ref', 'A1'], ['num', '1']],
+                  'Sheet1!C1': ['call', 'SUM', [['range', 'A1:A2']]],
+                  'Sheet2!C1': ['call', 'SUM', [['range', 'A1:A2']]]},
+     'sheets': ['Sheet1', 'Sheet2']})
 for _m in FIXED:
     _m['order'] = list(_m['formulas'])
 
@@ -74,8 +84,35 @@ def enumerate_cases(tier, shard=0, nshards=1):
             yield {'memory': k, 'n': n}
 
 
+def _twin(d):
+    """two sheets holding the same formula texts over different inputs"""
+    m = {'inputs': {}, 'formulas': {}, 'sheets': ['Sheet1', 'Sheet2']}
+    for si, sh in enumerate(m['sheets']):
+        for r in (1, 2, 3):
+            m['inputs']['%s!A%d' % (sh, r)] = (si * 100 + r * 7
+                                               + d.pick(3))
+    forms = []
+    for r in range(1, d.int(2, 4)):
+        k = d.pick(3)
+        if k == 0:
+            t = ['op', d.choice(['+', '*', '-']), ['ref', 'A%d' % d.int(1, 3)],
+                 ['ref', 'A%d' % d.int(1, 3)]]
+        elif k == 1:
+            t = ['call', 'SUM', [['range', 'A1:A%d' % d.int(2, 3)]]]
+        else:
+            t = ['op', '+', ['ref', 'A%d' % d.int(1, 3)], ['num', '1']]
+        forms.append(('B%d' % r, t))
+    if d.pick(2):
+        forms.append(('C1', ['op', '+', ['ref', 'B1'], ['ref', 'A1']]))
+    for sh in m['sheets']:
+        for a, t in forms:
+            m['formulas'][sh + '!' + a] = t
+    m['order'] = list(m['formulas'])
+    return m
+
+
 def _build(d):
-    model = GM.build_model(d)
+    model = _twin(d) if d.pick(4) == 0 else GM.build_model(d)
     cells = model['order'] + sorted(model['inputs'])[:3] + ['Sheet1!Z9']
     nev = d.int(1, 3)
     n = d.int(2, 3 * len(cells))
